@@ -18,7 +18,8 @@ RULE = (
     "arrays / numpy record array / pandas DataFrame with string-expression quantities / a bare 1-D ndarray with "
     "quantities over the datum itself), weights (omitted / positive "
     "scalar / zero scalar / non-negative array incl. zeros) and cut points splitting the batch into 1..4 successive "
-    "fill.numpy calls (empty batches allowed; the calls get freshly built arrays or consecutive slices of one table).  Oracle: a twin tree filled row by row with the same weights (in a sixth of the cases the rows are taken from the "
+    "fill.numpy calls (empty batches allowed; the calls get freshly built arrays or consecutive slices of one table; the numeric columns "
+    "are float64, float32 or int64 arrays, strided views or read-only arrays).  Oracle: a twin tree filled row by row with the same weights (in a sixth of the cases the rows are taken from the "
     "arrays themselves, so their values are numpy scalars) has the "
     "same document up to zero-weight sparse bins/categories (counts bit-exact when every partial sum is representable, "
     "rel 1e-9 otherwise, tolerance on means/variances); an exception on one side only is a violation; all input "
@@ -45,6 +46,14 @@ def _to_x(spec):
         return out
     if isinstance(spec, list):
         return [_to_x(v) for v in spec]
+    return spec
+
+
+def _plain_q(spec):
+    if isinstance(spec, dict):
+        return {k: _plain_q(v) for k, v in spec.items() if not (spec.get("t") == "num" and k in ("a", "b"))}
+    if isinstance(spec, list):
+        return [_plain_q(v) for v in spec]
     return spec
 
 
@@ -127,6 +136,21 @@ def strategy(tier):
             for r in batch:
                 if draw(st.integers(0, 2)) == 0:
                     r["w"] = draw(st.sampled_from((float("inf"), float("inf"), float("-inf"))))
+        # the arrays may be float32 / int64 columns (the rows then hold exactly those numbers as Python floats),
+        # strided views or read-only arrays
+        flavour = draw(st.sampled_from(("f64", "f64", "f32", "f32", "i64", "strided", "readonly")))
+        if flavour == "i64" and any(not (r[c] == r[c] and abs(r[c]) < 2.0**52) for r in batch for c in ("x", "y", "z")):
+            flavour = "f64"
+        if flavour == "f32":
+            # arithmetic inside a user's quantity on a float32 array is float32 arithmetic (the user's business):
+            # only plain column quantities, so that both paths see the same numbers
+            spec = _plain_q(spec)
+        for r in batch:
+            for c in ("x", "y", "z"):
+                if flavour == "f32":
+                    r[c] = float(np.float32(r[c]))
+                elif flavour == "i64":
+                    r[c] = float(round(r[c]))
         wmode = draw(st.sampled_from(("omitted", "scalar", "zero", "array", "array")))
         excluded = 0
         if wmode != "array" and count_before_shape(spec):
@@ -144,17 +168,34 @@ def strategy(tier):
             w = None
         cuts = draw(gen.cuts(n, 4))
         return {"spec": spec, "rep": rep, "batch": batch, "wmode": wmode, "w": w, "cuts": cuts, "excluded": excluded, "views": draw(st.booleans()),
-                "np_rows": draw(st.integers(0, 5)) == 0}
+                "np_rows": draw(st.integers(0, 5)) == 0, "flavour": flavour}
 
     return cases()
 
 
-def make_data(rep, rows):
+def _column(values, flavour):
+    """One numeric column in the requested array flavour (same numbers as the rows hold)."""
+    if flavour == "f32":
+        return np.array(values, dtype=np.float32)
+    if flavour == "i64":
+        return np.array([int(v) for v in values], dtype=np.int64)
+    if flavour == "strided":
+        big = np.zeros(2 * len(values), dtype=np.float64)
+        big[::2] = values
+        return big[::2]
+    a = np.array(values, dtype=np.float64)
+    if flavour == "readonly":
+        a.setflags(write=False)
+    return a
+
+
+def make_data(rep, rows, flavour="f64"):
     if rep == "bare":
-        return np.array([r["x"] for r in rows], dtype=np.float64)
+        return _column([r["x"] for r in rows], flavour)
     cols = {}
-    for c in ("x", "y", "z", "w"):
-        cols[c] = np.array([r[c] for r in rows], dtype=np.float64)
+    for c in ("x", "y", "z"):
+        cols[c] = _column([r[c] for r in rows], flavour)
+    cols["w"] = np.array([r["w"] for r in rows], dtype=np.float64)
     cols["b"] = np.array([r["b"] for r in rows], dtype=bool)
     if rep != "df":
         cols["s"] = np.array([r["s"] for r in rows], dtype="U12")
@@ -234,7 +275,8 @@ def check(case):
     hrow = build(spec, bare_qhook if bare else None)
     hnp = build(spec, bare_qhook if bare else None)
     chunks = gen.split(list(range(n)), case["cuts"])
-    whole = make_data(case["rep"], rows)
+    flavour = case.get("flavour", "f64")
+    whole = make_data(case["rep"], rows, flavour)
     for ch in chunks:
         sub = [rows[i] for i in ch]
         if case.get("views", True) and ch:
@@ -247,7 +289,7 @@ def check(case):
             else:
                 data = whole[a_:b_]
         else:
-            data = make_data(case["rep"], sub)
+            data = make_data(case["rep"], sub, flavour)
         before = _snapshot(case["rep"], data)
         if wmode == "array":
             warr = np.array([roww[i] for i in ch], dtype=np.float64)
@@ -260,9 +302,9 @@ def check(case):
             hnp.fill.numpy(data, w)
         require(_unchanged(case["rep"], before, data), "input-modified", "fill.numpy modified the caller's data")
         for n_, i in enumerate(ch):
-            if case.get("np_rows") and case["rep"] in ("dict", "recarray"):
+            if case.get("np_rows") and case["rep"] in ("dict", "recarray") and flavour in ("f64", "strided", "readonly"):
                 # "once per row" of the very arrays: the row's values are numpy scalars (np.float64, np.bool_, np.str_)
-                src = data if case.get("views", True) else make_data(case["rep"], sub)
+                src = data
                 names = src.keys() if case["rep"] == "dict" else src.dtype.names
                 row = {c: src[c][n_] for c in names}
                 try:
